@@ -201,6 +201,52 @@ func init() {
 		cn, neg := fr.i.run.ctx.Orient(fr.i.term(args[0]))
 		return tuple{fr.i.mkval(cn, types.Int64), neg}
 	}
+	caseConv := func(upper bool) func(fr *frame, args []value) value {
+		return func(fr *frame, args []value) value {
+			ss, ok := args[0].(symstr)
+			if !ok {
+				return notHandled{}
+			}
+			c := fr.i.run.ctx
+			out := make([]value, len(ss))
+			for k, b := range ss {
+				switch b := b.(type) {
+				case uint8:
+					if b >= 0x80 {
+						unsup("strings.ToUpper/ToLower on a symbolic string with non-ASCII bytes")
+					}
+					if upper && b >= 'a' && b <= 'z' {
+						b -= 32
+					} else if !upper && b >= 'A' && b <= 'Z' {
+						b += 32
+					}
+					out[k] = b
+				case sym:
+					if b.t.Hi == nil || b.t.Hi.Int64() >= 0x80 {
+						unsup("strings.ToUpper/ToLower on a symbolic string whose bytes are not known to be ASCII")
+					}
+					lo, hi, d := int64('a'), int64('z'), int64(-32)
+					if !upper {
+						lo, hi, d = 'A', 'Z', 32
+					}
+					t := c.Ite(c.And(c.Le(c.Int64(lo), b.t), c.Le(b.t, c.Int64(hi))), c.Add(b.t, c.Int64(d)), b.t)
+					// case conversion of an ASCII byte is an ASCII byte (the interval of the ite is coarser)
+					if t.Hi == nil || t.Hi.Int64() > 127 {
+						t.Hi = big.NewInt(127)
+					}
+					if t.Lo == nil || t.Lo.Sign() < 0 {
+						t.Lo = big.NewInt(0)
+					}
+					out[k] = fr.i.mkval(t, types.Uint8)
+				default:
+					unsup("strings.ToUpper/ToLower: unexpected byte %T", b)
+				}
+			}
+			return normStr(out)
+		}
+	}
+	intrinsics["strings.ToUpper"] = caseConv(true)
+	intrinsics["strings.ToLower"] = caseConv(false)
 	intrinsics[v+"Abs64"] = func(fr *frame, args []value) value {
 		if x, ok := args[0].(int64); ok {
 			if x < 0 {
